@@ -304,6 +304,14 @@ func genC12(tier string, seed uint64, emit func(string)) {
 		{"-5", []string{"DECRBY", "n", "9223372036854775807"}, "E"},
 		{"0", []string{"DECRBY", "n", "-9223372036854775808"}, "E"},
 		{"abc", []string{"INCR", "n"}, "E"},
+		{"0x10", []string{"INCR", "n"}, "E"},
+		{"0b11", []string{"DECR", "n"}, "E"},
+		{"0o17", []string{"INCRBY", "n", "1"}, "E"},
+		{"1_000", []string{"DECR", "n"}, "E"},
+		{"1e3", []string{"INCR", "n"}, "E"},
+		{" 5", []string{"INCR", "n"}, "E"},
+		{"5 ", []string{"INCR", "n"}, "E"},
+		{"\xd9\xa3", []string{"INCR", "n"}, "E"},
 		{"1.5", []string{"INCRBY", "n", "2"}, "E"},
 		{"", []string{"INCR", "n"}, "E"},
 		{"10", []string{"DECRBY", "n", "3"}, ":7"},
@@ -341,7 +349,7 @@ func genC12(tier string, seed uint64, emit func(string)) {
 		emit(c12Line(prog, ""))
 	}
 	// string programs whose every reply is also checked against the independent sequential specification
-	strMenu := [][][]byte{bs("SET", "a", "1"), bs("SET", "a", "xyz"), bs("SET", "b", ""), bs("GET", "a"), bs("GET", "b"), bs("GET", "c"), bs("SETNX", "a", "5"), bs("SETNX", "c", "7"),
+	strMenu := [][][]byte{bs("SET", "a", "0x10"), bs("SET", "a", "1_000"), bs("SET", "c", "0b1"), bs("SET", "a", "1"), bs("SET", "a", "xyz"), bs("SET", "b", ""), bs("GET", "a"), bs("GET", "b"), bs("GET", "c"), bs("SETNX", "a", "5"), bs("SETNX", "c", "7"),
 		bs("GETSET", "a", "2"), bs("GETSET", "c", ""), bs("INCR", "a"), bs("INCR", "c"), bs("DECR", "b"), bs("INCRBY", "a", "10"), bs("DECRBY", "a", "3"), bs("INCRBY", "c", "0"),
 		bs("APPEND", "a", "7"), bs("APPEND", "c", ""), bs("APPEND", "b", ""), bs("APPEND", "b", "1"), bs("STRLEN", "a"), bs("STRLEN", "c"), bs("EXISTS", "a", "b", "c"), bs("EXISTS", "c"),
 		bs("MSETNX", "c", "1"), bs("MSETNX", "a", "1"), bs("MSET", "a", "4", "c", ""), bs("MGET", "a", "b", "c", "a"), bs("DEL", "a"), bs("DEL", "c"), bs("DEL", "a", "b", "c")}
